@@ -120,15 +120,38 @@ func c08Run(n int, lens []int, preemptions int) {
 	for i := range payloads {
 		id := string(rune('0' + i))
 		payloads[i] = verif.Bytes("p"+id, lens[verif.Choice("len"+id, len(lens))])
+		// the two top bits of every byte name the writer (the other six are arbitrary), so that
+		// bytes of different writers mixed into one message are recognised under every
+		// interleaving, also one the native replay happens to take instead of the engine's
+		for j := range payloads[i] {
+			payloads[i][j] = payloads[i][j]&0x3F | byte(i)<<6
+		}
 	}
 	var wg sync.WaitGroup
 	wg.Add(n)
-	for i := 0; i < n; i++ {
-		p := payloads[i]
+	// natively the writers are started longest payload first, a few milliseconds apart, so
+	// that "a multi-frame writer is under way when a short one arrives" is the typical native
+	// interleaving; the engine explores every schedule regardless of the start order
+	order := make([]int, n)
+	for i := range order {
+		order[i] = i
+	}
+	if !verif.IsSymbolic() {
+		for i := 1; i < n; i++ {
+			for j := i; j > 0 && len(payloads[order[j]]) > len(payloads[order[j-1]]); j-- {
+				order[j], order[j-1] = order[j-1], order[j]
+			}
+		}
+	}
+	for k := 0; k < n; k++ {
+		p := payloads[order[k]]
 		go func() {
 			defer wg.Done()
 			hc.Write(p)
 		}()
+		if !verif.IsSymbolic() {
+			time.Sleep(3 * time.Millisecond)
+		}
 	}
 	wg.Wait()
 	verif.Trace("schedule " + verif.Schedule())
@@ -168,10 +191,14 @@ func c08Run(n int, lens []int, preemptions int) {
 	verif.Reach("end")
 }
 
+// Payload lengths: one frame, and three frames (2049 bytes = 1024+1024+1). Three frames,
+// not two, because the native replay relies on the Go runtime handing the mutex to a
+// goroutine that has been waiting for more than a millisecond, which happens at the second
+// unlock at the earliest.
 func Harness_C08_q_two_writers() {
-	c08Run(2, []int{1, 1025}, 2)
+	c08Run(2, []int{1, 2049}, 2)
 }
 
 func Harness_C08_t_three_writers() {
-	c08Run(3, []int{1, 1025}, 3)
+	c08Run(3, []int{1, 1025, 2049}, 3)
 }
